@@ -752,6 +752,14 @@ Example legal_example_stream :
    CCheckSat; CPop 1; CPop 1; CCheckSat; CGetValue [0; 1]; CGetValue [1]; CGetValue [0]; CExit].
 Proof. reflexivity. Qed.
 
+(* the hypotheses of model_complete_partial are satisfiable after pushes, pops and one-shot checks *)
+Example model_complete_example :
+  let h := [AAdd (FAtom 0 [0; 1]); APush 1; AAdd (FAtom 1 [2]); AIsSat (FAtom 2 [3]); APop 1;
+            AAdd (FAtom 3 [1; 4]); ASolve] in
+  history_legal ideal_init 0 h = true /\ depth_run 0 h = 0 /\ pending (final h) = false /\
+  model_queries (final h) = [4; 1; 0].
+Proof. repeat split; reflexivity. Qed.
+
 (* ====================================================================== *)
 (* C. The full clauses are FALSE of the faithful model: witnesses          *)
 (* ====================================================================== *)
@@ -771,6 +779,9 @@ Definition redeclare_witness : list api_call :=
 (* reset_assertions keeps the declaration record although the solver forgot the declarations *)
 Definition reset_witness : list api_call := [AAdd X; AReset; AAdd X].
 
+(* get_value never declares: a symbol that occurs in no (simplified) assertion is sent undeclared *)
+Definition value_witness : list api_call := [AAdd X; ASolve; AGetValue [1]].
+
 Definition legal_and_quiet (decide : list form -> bool) (h : list api_call) : bool :=
   accepted decide (stream h) && negb (werr (final h)).
 
@@ -785,6 +796,10 @@ Theorem stream_legal_refuted_redeclare : user_legal 0 redeclare_witness = true /
 Proof. split; reflexivity. Qed.
 Theorem stream_legal_refuted_reset : user_legal 0 reset_witness = true /\
   forall decide, accepted decide (stream reset_witness) = false.
+Proof. split; reflexivity. Qed.
+
+Theorem stream_legal_refuted_value : user_legal 0 value_witness = true /\
+  forall decide, accepted decide (stream value_witness) = false.
 Proof. split; reflexivity. Qed.
 
 (* the full clause "every user-legal history yields a legal stream and no internal error" *)
